@@ -22,17 +22,24 @@ def prioDump (s : PSt) : String :=
 
 def prioRun (kind : String) (ops : List String) : Option String := do
   let cfg := kind.splitOn ":"
-  let (mc, mi, th) ← match cfg with
-    | [_, a, b, c] => do pure (← a.toNat?, ← b.toNat?, c == "1")
-    | _ => some (4, 4, false)
+  let (mc, mi, th, thr0) ← match cfg with
+    | [_, a, b, c] => do pure (← a.toNat?, ← b.toNat?, c == "1", none)
+    | [_, a, b, c, d] => do pure (← a.toNat?, ← b.toNat?, c == "1", some (Int.ofNat (← d.toNat?)))
+    | _ => some (4, 4, false, none)
   let mut s : PSt := PSt.init mc mi th
+  -- (a fifth field: the throttle limit reached after many consecutive out-of-order Pops)
+  if let some t := thr0 then s := { s with throttle := t }
   let mut uid := 0
   let mut out : Array String := #[]
   for o in ops do
     let body1 := (o.drop 1).toString
     let body2 := (o.drop 2).toString
     let mut op : Option POp := none
-    if o.startsWith "o" then op := some (.open_ (← body1.toNat?))
+    if o.startsWith "o" then
+      match body1.splitOn "." with
+      | [a] => op := some (.open_ (← a.toNat?) 0)
+      | [a, b] => op := some (.open_ (← a.toNat?) (← b.toNat?))     -- o<id>.<pusher>
+      | _ => none
     else if o.startsWith "c" then op := some (.close (← body1.toNat?))
     else if o.startsWith "a" then
       match body1.splitOn "." with
